@@ -126,13 +126,15 @@ impl Stats {
 
 #[derive(Clone, Copy)]
 pub struct Env {
+    /// definition of the enclosing `Let` (raw: the grammar tree outlives evaluation)
+    pub let_def: *const G,
     pub ctx: Tok,
     /// bodies of the enclosing `Rec` nodes, innermost first (raw: the grammar tree outlives evaluation)
     pub rec: [*const G; 2],
 }
 impl Env {
     pub fn new(ctx: Tok) -> Env {
-        Env { ctx, rec: [std::ptr::null(); 2] }
+        Env { ctx, rec: [std::ptr::null(); 2], let_def: std::ptr::null() }
     }
     fn with_ctx(self, ctx: Tok) -> Env {
         Env { ctx, ..self }
@@ -803,6 +805,20 @@ fn eval0(g: &G, pos: usize, env: Env, w: &mut World) -> R {
             let (e, _) = eval(a, pos, env, w)?;
             Some((e, Val::U))
         }
+        Padded(a) => {
+            // skip_while: every skipped token is consumed (and seen by the inspector); no failure event
+            let mut p = pos;
+            while p < t.len() && t[p].is_whitespace() {
+                w.consume(p);
+                p += 1;
+            }
+            let (mut e, v) = eval(a, p, env, w)?;
+            while e < t.len() && t[e].is_whitespace() {
+                w.consume(e);
+                e += 1;
+            }
+            Some((e, v))
+        }
         Boxed(a) | Memo(a) => {
             let (e, v) = eval(a, pos, env, w)?;
             Some((e, v))
@@ -834,6 +850,13 @@ fn eval0(g: &G, pos: usize, env: Env, w: &mut World) -> R {
         MapZ(a) => {
             let (e, _) = eval(a, pos, env, w)?;
             Some((e, Val::Z))
+        }
+        Let(def, body) => eval(body, pos, Env { let_def: &**def as *const G, ..env }, w),
+        Var => {
+            assert!(!env.let_def.is_null(), "model: var outside let");
+            // SAFETY: points into the grammar tree being evaluated, which outlives this call
+            let def: &G = unsafe { &*env.let_def };
+            eval(def, pos, Env { let_def: std::ptr::null(), ..env }, w)
         }
         Rec(body, _) => {
             // native recursion of the evaluator = the grammar unrolled as deep as the input requires
